@@ -218,11 +218,22 @@ pub fn ram_self_test() -> Result<(), String> {
     if get(&s, "qa")? != (2, 0) {
         return Err("ram: a write with enable low must not change the word".into());
     }
-    // both ports on the same word: the later port wins
+    // both ports on the same word: undefined by the documentation -> X
     set(&mut s, 3, 1, 1, 7, 1, 6, 1)?;
     s.step(false);
-    if get(&s, "qa")? != (6, 0) {
-        return Err(format!("ram: two ports on one word: {:?}", get(&s, "qa")?));
+    if get(&s, "qa")?.1 != 7 {
+        return Err(format!("ram: two ports on one word must give X: {:?}", get(&s, "qa")?));
+    }
+    // two ports on different words: both happen
+    set(&mut s, 3, 0, 3, 7, 2, 4, 0)?;
+    s.step(false);
+    if get(&s, "qa")? != (3, 0) {
+        return Err(format!("ram: port 1 of two: {:?}", get(&s, "qa")?));
+    }
+    set(&mut s, 0, 0, 0, 0, 0, 0, 2)?;
+    s.step(false);
+    if get(&s, "qa")? != (4, 0) {
+        return Err(format!("ram: port 2 of two: {:?}", get(&s, "qa")?));
     }
     let _ = X;
     Ok(())
